@@ -582,18 +582,21 @@ macro_rules! is_it {
 macro_rules! is_itc {
     (@first $self:ident, $index:expr) => {{
         // NOTE: The conditions here then are that:
-        // - `index - 1` is not a digit after consuming digit separators
+        // - `index - 1` is a digit after consuming digit separators
+        //   (internal or trailing), or
+        // - `index + 1` is not a digit after consuming digit separators
+        //   (trailing without digits).
         //
         // # Logic
         //
-        // We also need to consider the case where it's empty,
-        // that is, the previous one wasn't a digit if we don't
-        // have a digit.
+        // No digit has been returned yet: if the previous character is
+        // not a digit and a digit follows, this would be a leading digit
+        // separator, which is not allowed. This mirrors `is_it!`.
 
         let prev = indexing!(@prevc $self, $index);
         let next = indexing!(@nextc $self, $index);
         let slc = $self.byte.slc;
-        slc.get(prev).map_or(false, |&x| !$self.is_digit(x)) ||
+        slc.get(prev).map_or(false, |&x| $self.is_digit(x)) ||
             slc.get(next).map_or(true, |&x| !$self.is_digit(x))
     }};
 
